@@ -27,9 +27,23 @@ TAGS = ["current", "stable"]
 
 # ------------------------------------------------------------------ helpers that run inside children
 
+def _flatten_times(stack, userdata):
+    """testing knob VERIF_C08_FLATTIME=1: every file and directory gets the same modification time, as on a file
+    system or clock too coarse to order two operations; a cache that is out of date then passes for fresh"""
+    for top in (os.path.join(stack, "ups_db"), userdata):
+        for d, _, files in os.walk(top):
+            for x in [d] + [os.path.join(d, f) for f in files]:
+                try:
+                    os.utime(x, (1000000000, 1000000000))
+                except OSError:
+                    pass
+
+
 def new_eups(stack, userdata, flavor):
     import eups
     sys.modules["eups.db.Database"]._databases.clear()
+    if os.environ.get("VERIF_C08_FLATTIME") == "1":
+        _flatten_times(stack, userdata)
     os.environ["EUPS_PATH"] = stack
     os.environ["EUPS_USERDATA"] = userdata
     os.environ["EUPS_FLAVOR"] = flavor
@@ -129,6 +143,33 @@ class _Crash(Exception):
     pass
 
 
+def install_listdir(mode):
+    """POSIX promises nothing about the order of a directory listing, and the order differs between file systems.
+    mode None: whatever the file system gives; "sorted" / "reversed": by name; "shuffle:<n>": a permutation that
+    depends on n and on the directory only; "perpid:<n>": also on the process, so that the completed run and each
+    killed run of one case meet the entries of one directory in different orders.  Installed in the child of the case: history, operation and readers"""
+    if not mode:
+        return
+    import random
+    orig = os.listdir
+
+    def listdir(path="."):
+        l = sorted(orig(path))
+        if mode == "reversed":
+            l.reverse()
+        elif mode.startswith(("shuffle:", "perpid:")):
+            try:
+                key = os.path.basename(os.fspath(path))
+            except TypeError:
+                key = ""
+            key = key if isinstance(key, str) else key.decode()
+            if mode.startswith("perpid:"):      # another order in every process: two copies of one directory differ
+                key += "|%d" % os.getpid()
+            random.Random("%s|%s" % (mode, key)).shuffle(l)
+        return l
+    os.listdir = listdir
+
+
 def install_injector(stack, kill_at, trace, flush=True):
     """count the file-system effects on <stack>/ups_db; before effect number kill_at the process dies"""
     import builtins
@@ -146,6 +187,8 @@ def install_injector(stack, kill_at, trace, flush=True):
 
     def effect(kind, rel, extra=None):
         if kill_at is not None and state["n"] == kill_at:
+            if state.get("on_kill"):
+                state["on_kill"]()       # the report of what was done so far leaves through the pipe
             os._exit(137)
         state["n"] += 1
         trace.append([kind, rel, extra])
@@ -239,7 +282,8 @@ def _killed_run(stack, userdata, op, kill_at, flush):
         os.close(r)
         trace = []
         try:
-            install_injector(stack, kill_at, trace, flush)
+            st = install_injector(stack, kill_at, trace, flush)
+            st["on_kill"] = lambda: os.write(w, json.dumps({"trace": trace, "outcome": "killed"}).encode())
             e = new_eups(stack, userdata, op["flavor"])
             try:
                 do_op(e, stack, op)
@@ -289,10 +333,11 @@ def _observe(stack, userdata, info, before):
     return out
 
 
-def case_run(history, op, flush=True):
+def case_run(history, op, flush=True, listdir=None):
     """child: the state after history is built once; the operation is then run to completion and, from a
     restored copy of that state, killed before each of its effects.  Returns {"full": ..., "crashes": [...]}"""
     common.import_eups()
+    install_listdir(listdir)
     work = common.scratch_dir("c08.")
     try:
         stack, userdata = run_history(work, history)
@@ -319,9 +364,10 @@ def case_run(history, op, flush=True):
         shutil.rmtree(work, ignore_errors=True)
 
 
-def case_full_only(history, op):
+def case_full_only(history, op, listdir=None):
     """child: the operation run to completion only, with its trace (no crash points); for the effect-sequence tie"""
     common.import_eups()
+    install_listdir(listdir)
     work = common.scratch_dir("c08s.")
     try:
         stack, userdata = run_history(work, history)
@@ -363,6 +409,24 @@ def directed_cases():
         ([dec(L, "a", "1", "current")], {"op": "undeclare", "p": "a", "v": "1", "flavor": L}),  # last flavor, tagged
         (two + [dec(L, "b", "1", "stable")], {"op": "tag", "p": "a", "v": "1", "flavor": L, "tag": "stable"}),
         ([dec(L, "a", "1"), dec(L, "a", "2", "stable")], dec(D, "a", "2", "stable")),
+    ]
+    return [{"history": h, "op": op} for h, op in out]
+
+
+def order_cases():
+    """undeclare of a version that several tags point at (each untag is one effect; Database.findTags meets the chain
+    files in os.listdir order), chain files shared by two flavors, two products"""
+    L, D = "Linux64", "Darwin"
+    dec = lambda fl, p, v, tag=None: {"op": "declare", "p": p, "v": v, "flavor": fl, "tag": tag}
+    tag = lambda fl, p, v, t: {"op": "tag", "p": p, "v": v, "flavor": fl, "tag": t}
+    und = lambda fl, p, v: {"op": "undeclare", "p": p, "v": v, "flavor": fl}
+    out = [
+        ([dec(L, "a", "1", "current"), tag(L, "a", "1", "stable")], und(L, "a", "1")),
+        ([dec(L, "a", "1", "current"), dec(D, "a", "1", "current"), tag(L, "a", "1", "stable"),
+          tag(D, "a", "1", "stable")], und(L, "a", "1")),
+        ([dec(L, "b", "1", "stable"), dec(L, "b", "2"), tag(L, "b", "1", "current")], und(L, "b", "1")),
+        ([dec(L, "a", "1", "current"), dec(L, "b", "1", "stable"), dec(L, "b", "2", "current")],
+         dec(D, "a", "2", "stable")),
     ]
     return [{"history": h, "op": op} for h, op in out]
 
@@ -466,18 +530,45 @@ def parse_effects(out):
     return "ok", [tuple(common.dec(x) for x in e.split(":", 1)) for e in body.split(";")] if body else []
 
 
-def main_effect_indices(trace):
-    """positions in the trace of the record-level effects of the repaired protocol, in order (os.makedirs and the
-    os.mkdir it calls are both traced: the directory appears with the second entry)"""
-    idx = []
-    for i, (kind, rel, _) in enumerate(trace):
-        if kind == "rename" or kind == "rmdir" or (kind == "unlink" and not is_tmpname(rel)):
-            idx.append(i)
+def completed_effects(own, after):
+    """record-level effects a killed run completed, in the order it performed them, from its own trace.  An entry is
+    traced before the call is made and the process dies at the next traced entry, so every entry was carried out -
+    except a last os.makedirs entry, whose os.mkdir (traced in its turn) was not reached: the directory tells"""
+    out = []
+    for i, (kind, rel, _) in enumerate(own):
+        if kind == "rename":
+            e = ("W", "stack/" + rel)
+        elif kind == "unlink" and not is_tmpname(rel):
+            e = ("R", "stack/" + rel)
+        elif kind == "rmdir":
+            e = ("X", "stack/" + rel)
         elif kind == "mkdir":
-            if i + 1 < len(trace) and trace[i + 1][0] == "mkdir" and trace[i + 1][1] == rel:
+            e = ("M", "stack/" + rel)
+            if i > 0 and own[i - 1][0] == "mkdir" and own[i - 1][1] == rel and out and out[-1] == e:
                 continue
-            idx.append(i)
-    return idx
+            if i == len(own) - 1 and rel not in after:
+                continue
+        else:
+            continue
+        out.append(e)
+    return out
+
+
+def untag_run(op, seq):
+    n = 0
+    if op["op"] == "undeclare":
+        while n < len(seq) and seq[n][1].endswith(".chain"):
+            n += 1
+    return n
+
+
+def is_model_prefix(op, model, done):
+    """done is a prefix of the model's effects, the untag effects of an undeclare taken in any order"""
+    from collections import Counter
+    n = untag_run(op, model)
+    if len(done) <= n:
+        return not (Counter(done) - Counter(model[:n]))
+    return sorted(done[:n]) == sorted(model[:n]) and list(done[n:]) == list(model[n:len(done)])
 
 
 def real_rows(view):
@@ -507,11 +598,7 @@ def canon_untag_order(op, seq):
     """Database.undeclare removes the tags on the version in the order Database.findTags meets the chain files, i.e.
     os.listdir order, which the file system chooses; the model fixes the order in which the chain files were created.
     The leading run of chain-file effects of an undeclare is therefore compared as a set"""
-    if op["op"] != "undeclare":
-        return list(seq)
-    n = 0
-    while n < len(seq) and seq[n][1].endswith(".chain"):
-        n += 1
+    n = untag_run(op, seq)
     return sorted(seq[:n]) + list(seq[n:])
 
 
@@ -532,12 +619,13 @@ def compare_effect_sequences(ctx, cases):
                 continue        # os.makedirs and the os.mkdir it calls are both traced: one directory creation
             real.append(e)
         c["_meffs"], c["_reffs"] = model, real
+        c["_seq_agrees"] = canon_untag_order(c["op"], model) == canon_untag_order(c["op"], real)
         ctx.traces_validated += 1
         ctx.bump("effect-sequences-compared")
         if model != real:
             ctx.bump("effect-sequences-equal-up-to-listdir-order-of-untags")
         if canon_untag_order(c["op"], model) != canon_untag_order(c["op"], real):
-            ctx.disagree({"history": c["history"], "op": c["op"]},
+            ctx.disagree({"history": c["history"], "op": c["op"], "listdir": c.get("listdir")},
                          "%s %s" % (status, ";".join("%s:%s" % e for e in model)),
                          "%s %s" % (c["_full"]["info"]["outcome"], ";".join("%s:%s" % e for e in real)),
                          where="record-level effect sequence of the operation (Db.effects vs real trace)")
@@ -615,7 +703,7 @@ def corpus_cases():
 
 
 def explore(ctx, cases, flush=True):
-    runs = common.par_map(case_run, [(c["history"], c["op"], flush) for c in cases], timeout=900)
+    runs = common.par_map(case_run, [(c["history"], c["op"], flush, c.get("listdir")) for c in cases], timeout=900)
     jobs, res = [], []
     for c, r in zip(cases, runs):
         if r[0] != "ok":
@@ -646,7 +734,8 @@ def explore(ctx, cases, flush=True):
         if o is None and "_oldview" in c and full_r["view"] is not None:
             o = view_frame(c, c["_oldview"], full_r["view"], r)
         if o is not None:
-            ctx.fail(o[0], {"history": c["history"], "op": c["op"], "kill_before_effect": k, "flush": flush},
+            ctx.fail(o[0], dict({"history": c["history"], "op": c["op"], "kill_before_effect": k, "flush": flush},
+                                **({"listdir": c["listdir"]} if c.get("listdir") else {})),
                      expected="old or new form of every record; reader succeeds", observed=o[1], what=o[1])
         # model comparison: completed main effects among the first k real effects
         effs, writes = effects_from(trace, new)
@@ -655,16 +744,35 @@ def explore(ctx, cases, flush=True):
             if kind in ("rename", "mkdir", "rmdir") or (kind == "unlink" and not is_tmpname(rel)):
                 done += 1
         atomic = all(kind != "open" or is_tmpname(rel) for kind, rel, _ in trace)
-        if atomic and r["view"] is not None:
+        own = (r["info"] or {}).get("trace")
+        if atomic and own is not None:
+            # the killed run reports what it did itself: its completed effects come first, in its own order (the
+            # order of the untag effects of an undeclare may differ between two copies of one directory)
+            first = [(kk, pp[len("stack/"):]) for kk, pp in completed_effects(own, r["after"])]
+            rest = list(effs)
+            for e in first:
+                if e in rest:
+                    rest.remove(e)
+            effs, done = first + rest, len(first)
+        if atomic and r["view"] is not None and own is not None and c.get("_seq_agrees"):
             # what the fresh reader reports at this crash point against Model/CrashDb.read_db on the model's store
-            # after the same number of completed record-level effects
-            j = sum(1 for i in main_effect_indices(trace) if i < k)
-            if sorted(c["_meffs"][:j]) == sorted(c["_reffs"][:j]):
+            # after the record-level effects this killed run completed, in the order it performed them (the order of
+            # the untag effects of an undeclare is the file system's: os.listdir)
+            did = completed_effects(own, r["after"])
+            if is_model_prefix(c["op"], c["_meffs"], did):
+                if did != c["_meffs"][:len(did)]:
+                    ctx.bump("crash-views-compared-in-the-observed-untag-order")
+                if did != c["_reffs"][:len(did)]:
+                    ctx.bump("killed-run-untagged-in-another-order-than-the-completed-run")
                 vlines.append("\t".join(["crashview", "0", "stack", "|".join(op_model(o) for o in c["history"]),
-                                         op_model(c["op"]), str(j)]))
+                                         op_model(c["op"]), str(len(did)),
+                                         ";".join("%s:%s" % (kk, enc(pp)) for kk, pp in did)]))
                 vmeta.append((c, k, r))
-            else:       # the real undeclare met the chain files in another (os.listdir) order than the model
-                ctx.bump("crash-view-not-compared(untag order of the real run differs from the model's)")
+            else:
+                ctx.disagree({"history": c["history"], "op": c["op"], "kill_before_effect": k,
+                              "listdir": c.get("listdir")},
+                             ";".join("%s:%s" % e for e in c["_meffs"]), ";".join("%s:%s" % e for e in did),
+                             where="the effects completed before the crash are not a prefix of the model's effects")
         if atomic and all(v == 1 for v in writes.values()):
             # position in the model's system calls: all calls of the completed effects
             pos = 0
@@ -680,7 +788,8 @@ def explore(ctx, cases, flush=True):
             ctx.bump("crash-views-compared")
             m, real = model_rows(out), real_rows(r["view"])
             if m != real:
-                ctx.disagree({"history": c["history"], "op": c["op"], "kill_before_effect": k}, repr(m)[:600],
+                ctx.disagree({"history": c["history"], "op": c["op"], "kill_before_effect": k,
+                              "listdir": c.get("listdir")}, repr(m)[:600],
                              repr(real)[:600], where="what a fresh reader reports at the crash point (read_db of the "
                                                      "model's crash store vs findProducts of the real one)")
     if lines:
@@ -688,7 +797,8 @@ def explore(ctx, cases, flush=True):
         for line, out, (c, k, r) in zip(lines, outs, meta):
             real = enc_fs(r["after"])
             if out != real:
-                ctx.disagree({"history": c["history"], "op": c["op"], "kill_before_effect": k}, out[:600], real[:600],
+                ctx.disagree({"history": c["history"], "op": c["op"], "kill_before_effect": k,
+                              "listdir": c.get("listdir")}, out[:600], real[:600],
                              where="crash state (main files)")
 
 
@@ -715,6 +825,9 @@ def run(ctx):
     for _ in range(n):
         h = gen_history(ctx.rng)
         cases.append({"history": h[:-1], "op": h[-1]})
+    forced = os.environ.get("VERIF_C08_LISTDIR") or None      # testing knob: one listing order for every case
+    for c in cases:
+        c["listdir"] = forced
     for c in cases[:3]:
         ctx.sample({"history": c["history"], "op": c["op"]})
     explore(ctx, cases, flush=True)
@@ -722,8 +835,8 @@ def run(ctx):
     seq = []
     for _ in range(ctx.size(150, 2500)):
         h = gen_history(ctx.rng) + ([gen_op(ctx.rng)] if ctx.rng.random() < 0.5 else [])
-        seq.append({"history": h[:-1], "op": h[-1]})
-    runs = common.par_map(case_full_only, [(c["history"], c["op"]) for c in seq], timeout=300)
+        seq.append({"history": h[:-1], "op": h[-1], "listdir": forced})
+    runs = common.par_map(case_full_only, [(c["history"], c["op"], c.get("listdir")) for c in seq], timeout=300)
     for c, r in zip(seq, runs):
         if r[0] != "ok":
             raise RuntimeError("case run failed: %r" % (r,))
@@ -734,14 +847,22 @@ def run(ctx):
     compare_effect_sequences(ctx, seq)
     # the same crash points with python's ordinary buffering: what was written but not yet closed is lost
     nb = len(corpus_cases()) + len(directed_cases()) + ctx.size(6, 100)
-    explore(ctx, [dict(history=c["history"], op=c["op"], _oldview=c.get("_oldview")) for c in cases[:nb]], flush=False)
+    explore(ctx, [dict(history=c["history"], op=c["op"], _oldview=c.get("_oldview"), listdir=c.get("listdir"))
+                  for c in cases[:nb]], flush=False)
+    # directory listings in other orders than this file system's: by name, reversed, shuffled, and differing between
+    # the processes of one case.  Nothing compared above or below may depend on the order of a listing
+    if not forced:
+        n1, n2 = ctx.rng.randrange(1 << 30), ctx.rng.randrange(1 << 30)
+        for mode in ("sorted", "reversed", "shuffle:%d" % n1, "perpid:%d" % n2):
+            explore(ctx, [dict(c, listdir=mode) for c in order_cases() +
+                          (directed_cases() if mode.startswith(("reversed", "shuffle")) else [])], flush=True)
 
 
 def replay(ctx, path):
     ctx.matchers["c08.tag_move"] = m_tag_move
     obj = json.load(open(path))
     i = obj["input"]
-    c = {"history": i["history"], "op": i["op"]}
+    c = {"history": i["history"], "op": i["op"], "listdir": i.get("listdir")}
     explore(ctx, [c], flush=i.get("flush", True))
     bad = [f for f in ctx.failures if not ctx._known(f)] or ctx.disagreements
     print("replay %s: %s" % (path, "still fails" if bad else "passes"))
